@@ -42,6 +42,10 @@ def gen_cases(ctx):
                                            client_strategy=None if n is None else dict(
                                                attempts=n, codes='one', excs=excs, backoff=dict(family='periodic', interval=0)))
     yield from gen_threads(ctx)
+    for kind in ('sync', 'async'):
+        for before in (1, 2):
+            for outcome in ('ok', 'err'):
+                yield dict(part='badtracer', kind=kind, before=before, outcome=outcome)
     for calls in (2, 3):
         for outcomes in itertools.product(('ok', 'exc'), repeat=calls):
             for tk in (['full'], ['logging', 'full'], ['full', 'logging', 'chain'], ['instance', 'logging']):
@@ -297,7 +301,54 @@ def run_overlap_case(cfg, rec):
     return sched
 
 
+def run_badtracer(cfg, rec):
+    """the LAST tracer rejects the outcome by raising from its completion handler: the tracers before it have seen begin and ONE completion of
+    the attempt, and nothing else (the attempt itself did not fail)"""
+    import json as _json
+    from mc.harness.client import make_client
+    from mc.harness.client import run as drive
+    from pjrpc.client.tracer import Tracer
+
+    class Reject(Exception):
+        pass
+
+    tlog = []
+
+    class Rejecting(Tracer):
+        def on_request_begin(self, trace_context, request):
+            tlog.append(('R', 'begin'))
+
+        def on_request_end(self, trace_context, request, response):
+            tlog.append(('R', 'end'))
+            raise Reject('audit')
+
+        def on_error(self, trace_context, request, error):
+            tlog.append(('R', 'error'))
+    tracers = [cr.LogTracer(i, tlog) for i in range(cfg['before'])] + [Rejecting()]
+
+    def responder(text, is_notif, kw):
+        doc = _json.loads(text)
+        if cfg['outcome'] == 'err':
+            return _json.dumps(dict(jsonrpc='2.0', id=doc['id'], error=dict(code=cr.C1, message='no')))
+        return _json.dumps(dict(jsonrpc='2.0', id=doc['id'], result=1))
+    client = make_client(cfg['kind'], responder, tracers=tracers)
+    out = drive(cfg['kind'], lambda: client.send(cr.Request('m', [1], id=1)))
+    rec.transitions += 1
+    mine = [(e[0], e[1]) for e in tlog if e[0] != 'R']
+    want = [(t, 'begin') for t in range(cfg['before'])] + [(t, 'end') for t in range(cfg['before'])]
+    if mine != want:
+        rec.violation('C19:begin and completion counts differ when a later tracer raises from its completion handler', cfg, expected=want, observed=[list(e[:2]) for e in tlog])
+    elif not (out[0] == 'exc' and type(out[1]).__name__ == 'Reject'):
+        rec.violation('C19:the exception a tracer raised did not reach the caller', cfg, expected='Reject', observed=repr(out)[:200])
+    rec.states += 1
+    rec.traces += 1
+    rec.nontrivial_n += 1
+    return tuple(mine)
+
+
 def run_case(cfg, rec):
+    if cfg.get('part') == 'badtracer':
+        return run_badtracer(cfg, rec)
     if cfg.get('part') == 'overlap':
         return run_overlap_case(cfg, rec)
     if cfg.get('part') == 'threads':
